@@ -47,16 +47,19 @@ def cmpHolds (op : String) (len n : Nat) : Option Bool :=
   else if op = "<=" then some (decide (len ≤ n))
   else none
 
-/-- The expressions `Join` returns, as the model reads them -/
-def joinResult (expr : String) (pcks : List Ans) (errs vals : List Nat) : Option Resp :=
+/-- The expressions `Join` returns, as the model reads them. `errs` holds one entry per erroring packet: the
+leaves of `payload.Unwrap()` (one for a plain error, several for a joined one); `errors.Join(errs...)` keeps every
+member, so the response's error – read as a flat list of leaves, which is its message line by line – is their
+concatenation. -/
+def joinResult (expr : String) (pcks : List Ans) (errs : List (List Nat)) (vals : List Nat) : Option Resp :=
   if expr = "None" then some .none
   else if expr = "pcks[0]" then pcks.head?.map Resp.ofAns
-  else if expr = "New(types.NewError(errors.Join(errs...)))" then some (.err errs)
+  else if expr = "New(types.NewError(errors.Join(errs...)))" then some (.err errs.flatten)
   else if expr = "New(payloads[0])" then vals.head?.map .val
   else if expr = "New(types.NewSlice(payloads...))" then some (.vals vals)
   else none
 
-def joinLen (operand : String) (pcks : List Ans) (errs vals : List Nat) : Option Nat :=
+def joinLen (operand : String) (pcks : List Ans) (errs : List (List Nat)) (vals : List Nat) : Option Nat :=
   if operand = "pcks" then some pcks.length
   else if operand = "errs" then some errs.length
   else if operand = "payloads" then some vals.length
@@ -68,7 +71,7 @@ inductive Chain where
   | bad              -- a row the interpretation does not understand
   deriving DecidableEq, Repr
 
-def joinChain (pcks : List Ans) (errs vals : List Nat) : List (String × String × Nat × String) → Chain
+def joinChain (pcks : List Ans) (errs : List (List Nat)) (vals : List Nat) : List (String × String × Nat × String) → Chain
   | [] => .fall
   | (operand, op, n, expr) :: rest =>
     if op = "" then (match joinResult expr pcks errs vals with | some r => .ret r | none => .bad)
@@ -82,7 +85,7 @@ def joinChain (pcks : List Ans) (errs vals : List Nat) : List (String × String 
 
 /-- What the loop of `Join` collects -/
 def joinCollect (skipCond skipAction tag : String) (cases : List (String × String)) (pcks : List Ans) :
-    Option (List Nat × List Nat) :=
+    Option (List (List Nat) × List Nat) :=
   if skipCond = "pck == nil || pck == None" ∧ skipAction = "continue" ∧ tag = "payload := pck.Payload().(type)" ∧
      cases = [("types.Error", "errs = append(errs, payload.Unwrap())"), ("default", "payloads = append(payloads, payload)")]
   then some (pcks.filterMap errOf, pcks.filterMap valOf) else none
@@ -124,7 +127,7 @@ theorem C01.join_as_modelled (pcks : List Ans) : C01.joinByFacts pcks = some (jo
   | [a] => simp [C01.joinChain, C01.joinLen, C01.cmpHolds, C01.joinResult, join]
   | a :: b :: rest =>
     have hj : join (a :: b :: rest) =
-        (if (a :: b :: rest).filterMap errOf ≠ [] then Resp.err ((a :: b :: rest).filterMap errOf)
+        (if (a :: b :: rest).filterMap errOf ≠ [] then Resp.err ((a :: b :: rest).filterMap errOf).flatten
          else match (a :: b :: rest).filterMap valOf with
            | [] => .none
            | [v] => .val v
@@ -151,6 +154,7 @@ theorem C01.join_as_modelled (pcks : List Ans) : C01.joinByFacts pcks = some (jo
 theorem C01.join_by_facts_nonvacuous :
     C01.joinByFacts [.val 1, .none, .val 2] = some (.vals [1, 2]) ∧
     C01.joinByFacts [.val 1, .err 7, .none, .err 0] = some (.err [7, 0]) ∧
+    C01.joinByFacts [.err 0, .val 1, .errs [5, 6], .err 9] = some (.err [0, 5, 6, 9]) ∧
     C01.joinByFacts [.none, .none] = some .none := by
   decide
 
